@@ -361,8 +361,8 @@ def mc_and_replay(rep, tier, seed, selftest, stats):
         for i in sorted(rnd.sample(range(len(cases)), min(2, len(cases)))):
             samples.append({"case": case_text(cases[i]), "rule": cases[i]["v"], "solution": cases[i]["sol"],
                             "observed": {k: observations[i][k] for k in ("ok", "diags", "types") if k in observations[i]}})
-        for f in (inp, outp):
-            if os.path.exists(f) and not rep.violations:
+        for f in (inp, outp):          # (a replay file carries everything needed to reproduce a violation)
+            if os.path.exists(f):
                 os.remove(f)
         del cases, observations
     stats.update({"verdicts": dict(verdicts), "replayed": sum(verdicts.values()), "outcomes": dict(totals),
@@ -439,9 +439,19 @@ def execute_twins(rep, tier, seed, exec_jobs, stats):
     stats.update({"executed_pairs": len(jobs), "same_output": same, "different_output": differ})
     log("[exec] %d accepted bodies executed with their annotated twins: %d identical, %d different" % (len(jobs), same, differ))
     for f in (inp, outp):
-        if os.path.exists(f) and not rep.violations:
+        if os.path.exists(f):
             os.remove(f)
     return machine
+
+
+def cleanup_machine_files(prefix):
+    """the recordings / TLC outputs machine_trace.validate leaves under work/"""
+    import glob
+    for f in glob.glob(os.path.join(common.WORK, prefix + "-*trace*.ndjson")) + glob.glob(os.path.join(common.WORK, "tr-" + prefix + "-*.out")):
+        try:
+            os.remove(f)
+        except OSError:
+            pass
 
 
 def machine_oracle(rep, tier, seed, machine, stats):
@@ -459,6 +469,7 @@ def machine_oracle(rep, tier, seed, machine, stats):
     for i, block, off in rejections:
         rep.violation("infer-twin-machine", "twin %d :: machine-rejects" % i,
                       {"program": programs[i], "result": results[i], "message": "Machine.tla does not produce the recorded output of the annotated twin"})
+    cleanup_machine_files(tag("mach"))
     stats.update({"machine_validated": accepted, "machine_trivial": len(trivial), "machine_states": states})
     log("[machine] %d twins validated by Trace_Machine (%d trivial, %d rejected)" % (accepted, len(trivial), len(rejections)))
 
@@ -575,6 +586,8 @@ def random_erasure(rep, tier, seed, selftest, stats):
         if r["matched"] != r["total"]:
             raise common.ToolError("trace validation stopped at line %d of %s" % (r["matched"] + 1, path))
         bad, vs = bad_lines(r)
+        if os.path.exists(r["output"]):
+            os.remove(r["output"])
         for ln, v in vs.items():
             verdicts[v] += 1
         accepted_lines += r["total"] - len(bad)
@@ -590,6 +603,7 @@ def random_erasure(rep, tier, seed, selftest, stats):
         results = [{"results": [{"stdout": extra[rec["i"]]["twin_run"]["stdout"], "exit": extra[rec["i"]]["twin_run"]["exit"]}]} for _, rec, _ in differs]
         lines, where, direct = machine_trace.build_trace(programs, results)
         accepted, trivial, rejections, states = machine_trace.validate(lines, where, tag("ub"), chunks=2)
+        cleanup_machine_files(tag("ub"))
         for k in trivial:
             ub.add(differs[k][1]["i"])
         for k, block, off in rejections:
@@ -615,7 +629,7 @@ def random_erasure(rep, tier, seed, selftest, stats):
     log("[trace] %d erased random programs (%s sites) validated by TLC: verdicts %s, %d lines accepted" %
         (len(records), dict(site_kinds), dict(verdicts), accepted_lines))
     for f in [gen, era, inp, outp] + [p for p, _ in files]:
-        if os.path.exists(f) and not rep.violations:
+        if os.path.exists(f):
             os.remove(f)
     return selftests
 
@@ -650,6 +664,8 @@ def trace_selftest(file_and_part):
     by = {r["file"]: r for r in res}
     for name, p, corrupted in files:
         bad, _ = bad_lines(by[p])
+        if os.path.exists(by[p]["output"]):
+            os.remove(by[p]["output"])
         # (a flipped rejected line is only necessarily bad if the rule says undet/reject; otherwise it checks the types)
         out[name] = corrupted in bad
         os.remove(p)
